@@ -7,7 +7,12 @@ correspondence: real Parser().parse vs the model's lexer+grammar on (a) renderin
 oracles:        parse(render(program, layout)) is exactly the abstract program (names, values with their kinds, order, nesting, tuples),
                 for every layout; malformed text never raises anything but SyntaxError; numbers of equal value and different kind (1 / 1.0 / 1.00,
                 0 / 0.0 / -0.0 ...) written next to each other on one line - lists, nested lists, tuples, separate arguments, two commands - are read
-                as the kind and sign they were written as (`render.kind_mix_asts`, compared by `parsing.exact_parse` / `exact_load`)
+                as the kind and sign they were written as (`render.kind_mix_asts`, compared by `parsing.exact_parse` / `exact_load`); quoted strings written over
+                several file lines, with blanks / tabs in front of their line breaks (`render.multiline_asts`): parsed, loaded, and run through the command-line tool
+                with a plug-in library that notes what its commands are handed - all three are what was written (`tool_handover`); a caller who edits a parse
+                result or a loaded program in place (drops an argument, sorts / clears a list, changes a tuple) and parses the same text again - at once, or after
+                1-40 other texts - gets what the text says (`edited_results`); a tuple that writes a key more than once reads the same under every layout and
+                quoting of its keys, and through the loader (which pair counts is not stated by the property: correspondence only)
 known findings: unquoted strings made of several tokens lose their blanks / are re-rendered (F10): re-run, reported as KNOWN-FINDING
 """
 import re
@@ -35,6 +40,247 @@ HISTORY = ['A = B(P = "Dry season")', 'A = B(P = "Dry  season")', 'A = B(P = "Dr
            "A = B(x = 1)\nC = D(y = [2, 3])", "A = B(x = [k: 1, m: 2.5, n: v, o: \"7\"])", "A = B(x = [k: 7])", 'A = B(x = [k: "7"])', "A = B(x = [k: 7.0])",
            "READ(InFileName = x.csv, InFieldName = a)", 'A = B(OutFileName = "x", P = 1, NewFieldName = y)', "A = B(OutFileName = o)\nC = D(NewFieldName = n, Q = [1])",
            "A = B(P = [[k: 1, m: x], 2])", "A = B(P = [1, [[k: 2.5]], [m: \"q r\", n: 3]])"]
+
+
+# tuples in which a key is written more than once (also in another quoting): which pair counts is not part of the property, but the model knows what the
+# pinned parser does (correspondence), and whatever is read is the same under every layout and through every entry point
+REPEATED_KEYS = [[("a", 1), ("a", 2)], [("a", 1), ("b", 2), ("a", 3)], [("a", "first"), ("b", 2), ("a", "second"), ("a", "third")], [("x", 1), ("y", 2), ("y", 3), ("x", 4), ("z", 5)],
+                 [("Units", "m"), ("DisplayName", "Height"), ("Units", "ft")], [("k", 1), ("k", 1.0), ("k", "1")]]
+
+
+def repeated_key_asts():
+    def v(x):
+        return render.Val("int" if isinstance(x, int) else "float" if isinstance(x, float) else "str", x, "dq" if isinstance(x, str) else None)
+    return [[("R%d" % i, "Cmd", [("Metadata", render.Val("dict", [(k, v(x)) for k, x in pairs])), ("P", render.Val("int", i))])] for i, pairs in enumerate(REPEATED_KEYS)]
+
+
+def multiline(ast, rng):
+    """the same program with its quoted strings written over several file lines: blanks become a blank or tab followed by a line break (content, not layout)"""
+    def val(v):
+        if v.kind == "str" and v.how != "bare":
+            t = v.v.replace(" ", rng.choice([" \n", "\t\n", "  \n  ", " "])) if " " in v.v and rng.random() < 0.7 else v.v + rng.choice([" \n", "\t\nx", " \n \n"])
+            return render.Val("str", t, "raw-" + (v.how if v.how in ("dq", "sq") else "dq"))
+        if v.kind == "list":
+            return render.Val("list", [val(x) for x in v.v])
+        if v.kind == "dict":
+            return render.Val("dict", [(k, val(x)) for k, x in v.v])
+        return v
+    return [(res, cmd, [(n, val(v)) for n, v in args]) for res, cmd, args in ast]
+
+
+KEEP_LIB = "mpverif_c10_keep"
+KEEP_SRC = '''
+from mpilot.commands import Command
+
+RECEIVED = []
+
+
+class Keep(Command):
+    """ takes any arguments and notes what it is handed """
+    allow_extra_inputs = True
+    inputs = {}
+
+    def execute(self, **kwargs):
+        RECEIVED.append((self.result_name, list(kwargs.items())))
+'''
+
+
+def keep_lib():
+    import types
+    if KEEP_LIB not in sys.modules:
+        m = types.ModuleType(KEEP_LIB)
+        sys.modules[KEEP_LIB] = m
+        exec(compile(KEEP_SRC, KEEP_LIB, "exec"), m.__dict__)
+    return sys.modules[KEEP_LIB]
+
+
+def tool_handover(ctx):
+    """the command-line tool reads the file and hands its text to the loader: what the commands of a model receive when it is run through the tool is what
+    they receive from Program.from_source(text).run(), and both are what was written - in particular quoted strings written over several file lines whose
+    lines end in blanks / tabs / other white space (content, not layout), as arguments, list items and tuple values; LF and CRLF files, with and without a
+    line end after the last line.  The commands are those of a plug-in library (-l) that notes the arguments it is handed."""
+    import os
+    from click.testing import CliRunner
+    from mpilot.cli.mpilot import main
+    from mpilot.program import Program
+    rng = ctx.rng
+    lib = keep_lib()
+    tmp = common.tmpdir("mpv_c10_")
+    try:
+        runner = CliRunner(mix_stderr=False)
+    except TypeError:
+        runner = CliRunner()
+    asts = [(a, "multi-line strings") for a in render.multiline_asts(rng, command="Keep")]
+    for _ in range(ctx.budget(25, 600)):
+        a = [(res, "Keep", args) for res, _, args in render.rand_ast(rng, max_cmds=3)]
+        asts.append((multiline(a, rng), "random program, strings over several lines"))
+
+    def received():
+        got = dict((rn, [[n, parsing._exact_value(v)] for n, v in kw]) for rn, kw in lib.RECEIVED)
+        del lib.RECEIVED[:]
+        return got
+    for i, (ast, what) in enumerate(asts):
+        written = dict((res, args) for res, _, args in render.exact(ast))
+        for wild in ((False, True) if i % 2 == 0 or what.startswith("random") else (True,)):
+            nl = rng.choice(["\n", "\n", "\r\n"])
+            text, _ = render.render(ast, rng, nl, wild=wild)
+            if rng.random() < 0.3:
+                text = text.rstrip("\r\n \t")              # no line end after the last line
+            path = os.path.join(tmp, "m%d.mpt" % (i % 6))
+            with open(path, "w", encoding="utf-8", newline="") as f:
+                f.write(text)
+            del lib.RECEIVED[:]
+            res = runner.invoke(main, ["eems-csv", "-l", KEEP_LIB, path])
+            try:
+                err_text = res.stderr
+            except ValueError:
+                err_text = res.output
+            through_tool = received()
+            try:
+                Program.from_source(text, libraries=(KEEP_LIB,), working_dir=tmp).run()
+                direct = received()
+            except Exception as e:
+                direct = "raised " + type(e).__name__
+                del lib.RECEIVED[:]
+            ctx.case("tool " + text, sample={"kind": what, "file": text[:300], "exit": res.exit_code})
+            ctx.count("tool_handover_files")
+            ctx.count("tool_line_ends:" + ("crlf" if nl == "\r\n" else "lf"))
+            desc = {"command_file": text, "libraries": ["-l " + KEEP_LIB + " (a command Keep that takes any arguments and notes them)"], "written": written, "exit": res.exit_code, "stderr": (err_text or "")[-400:]}
+            if direct != written:
+                ctx.fail("the commands of a model loaded with Program.from_source and run are not handed what the text says (%s)" % what, dict(desc, received=direct))
+            elif res.exit_code != 0 or (res.exception is not None and not isinstance(res.exception, SystemExit)):
+                ctx.fail("the command-line tool does not run a well-formed model of a plug-in library: exit %s %s" % (res.exit_code, type(res.exception).__name__), desc)
+            elif through_tool != written:
+                bad = next(((rn, a_, b_) for rn in written for a_, b_ in zip(written[rn], through_tool.get(rn, []) + [None] * len(written[rn])) if a_ != b_), None)
+                ctx.fail("run through the command-line tool, the commands are handed something else than the file says and than Program.from_source hands them for the same text (%s): %s" % (
+                    what, "command %s: written %r, received %r" % bad if bad else "commands differ"), dict(desc, received_through_the_tool=through_tool, received_from_from_source=direct))
+
+
+def scramble(tree, rng):
+    """edits a parse result in place, below the command list and at it, the way a caller who owns the result may: drops / reverses / clears / extends argument
+    lists, sorts / reverses / clears / extends list values at every depth, clears / extends / re-values tuples"""
+    from mpilot.parser.parser import ArgumentNode, ExpressionNode
+
+    def value(x):
+        v = x.value
+        if isinstance(v, list):
+            for e in v:
+                value(e)
+            r = rng.randrange(5)
+            if r == 0:
+                v.sort(key=lambda e: repr(e.value))
+                v.reverse()
+            elif r == 1:
+                del v[:]
+            elif r == 2:
+                v.append(ExpressionNode("added", 1))
+            elif r == 3 and v:
+                v.pop(rng.randrange(len(v)))
+            else:
+                v.insert(0, ExpressionNode(-1, 1))
+        elif isinstance(v, dict):
+            r = rng.randrange(3)
+            if r == 0:
+                v.clear()
+            elif r == 1:
+                v["Added"] = ExpressionNode("added", 1)
+            else:
+                for k in list(v):
+                    v[k] = ExpressionNode("changed", 1)
+    for c in tree.commands:
+        for a in c.arguments:
+            value(a.value)
+        r = rng.randrange(4)
+        if r == 0 and c.arguments:
+            c.arguments.pop(rng.randrange(len(c.arguments)))
+        elif r == 1:
+            del c.arguments[:]
+        elif r == 2:
+            c.arguments.append(ArgumentNode("Added", ExpressionNode(1, 1), 1))
+        else:
+            c.arguments.reverse()
+            c.arguments.insert(0, ArgumentNode("Added", ExpressionNode([], 1), 1))
+    if rng.random() < 0.5:
+        tree.commands.reverse()
+    else:
+        del tree.commands[rng.randrange(len(tree.commands)):]
+
+
+def scramble_loaded(p, rng):
+    """the same for a loaded program: the values its commands hold"""
+    def value(v):
+        if hasattr(v, "list_linenos"):
+            for e in v.value:
+                value(e)
+            v.value.reverse()
+            v.value.append("added")
+        elif isinstance(v, dict):
+            v.clear()
+    for c in p.commands.values():
+        for a in c.arguments:
+            value(a if hasattr(a, "list_linenos") else a.value)
+        del c.arguments[rng.randrange(len(c.arguments) + 1):]
+
+
+def edited_results(ctx):
+    """what a text parses to does not depend on what a caller did to the result of an earlier parse: texts are parsed, the returned trees (and the programs
+    loaded from them) are edited in place, and the same texts are parsed and loaded again - by the same Parser, a new one and Program.from_source - at once
+    and after 1-40 other texts were read in between.  The second reading is what the text says (the renderer's record of it)."""
+    from mpilot.parser.parser import Parser
+    rng = ctx.rng
+    items = []
+    for i in range(ctx.budget(66, 1200)):
+        ast = render.rand_ast(rng, max_cmds=rng.choice([1, 2, 4]))
+        if i % 3 == 0:
+            ast = ast + rng.choice(render.kind_mix_asts(rng)[:40])
+        src, exp = render.render(ast, rng, "\n", wild=i % 2 == 0)
+        items.append((src, exp))
+    for h in HISTORY:
+        items.append((h, None))
+    k = 0
+    for size in [1, 1, 1, 2, 2, 5, 17, 40] * 40:
+        group = items[k:k + size]
+        k += size
+        if not group:
+            break
+        shared = Parser()
+        firsts = []
+        for src, exp in group:
+            try:
+                tree = shared.parse(src)
+            except SyntaxError:
+                firsts.append(None)
+                continue
+            before = parsing.canon_program(tree)
+            loaded = parsing.real_load(src)
+            want_load = parsing.expected_load(src)
+            prog_ = None
+            if loaded.startswith("ok"):
+                prog_ = parsing.any_program().from_source(src, libraries=())
+            firsts.append((tree, before, loaded, prog_, want_load))
+        for f in firsts:
+            if f is not None:
+                scramble(f[0], rng)
+                if f[3] is not None:
+                    scramble_loaded(f[3], rng)
+        for (src, exp), f in zip(group, firsts):
+            if f is None:
+                continue
+            tree, before, loaded, _, want_load = f
+            ctx.case("edited %d %s" % (size, src), sample={"source": src[:200], "texts_read_before_the_second_parse": size - 1})
+            ctx.count("edited_result_texts")
+            ctx.count("edited_result_group:%d" % size)
+            truth = exp if exp is not None else before
+            desc = {"source": src, "history": "parse the text (and %d others); edit the returned trees in place - arguments dropped / added, list values sorted / cleared / extended, tuples cleared / changed, commands dropped; parse the same text again" % (size - 1),
+                    "the_text_says": truth[:800]}
+            for who, got in (("the same Parser", parsing.real_parse(src, parser=shared)), ("a new Parser", parsing.real_parse(src))):
+                if got != truth:
+                    ctx.fail("after a caller edited the result of an earlier parse in place, %s reads the same text as something else than it says" % who, dict(desc, parsed_again=got[:800]))
+                    break
+            else:
+                again = parsing.real_load(src)
+                if again != loaded or (want_load is not None and again != want_load):
+                    ctx.fail("after a caller edited an earlier parse result and an earlier loaded program in place, Program.from_source hands the commands something else than the text says", dict(desc, loaded_before=loaded[:800], loaded_again=again[:800]))
 
 
 def respace(ast, rng):
@@ -140,6 +386,18 @@ def run(ctx):
             src, exp = render.render(ast, rng, "\n", wild=wild, one_line=one_line)
             srcs.append(src); expected.append(exp); kinds.append("kinds-side-by-side")
             exacts[src] = render.exact(ast)
+    # quoted strings written over several lines with blanks / tabs before their line breaks (content): as argument, list item, tuple value; LF and CRLF files
+    for k, ast in enumerate(render.multiline_asts(rng)):
+        src, exp = render.render(ast, rng, "\r\n" if k % 4 == 3 else "\n", wild=k % 2 == 0)
+        srcs.append(src); expected.append(exp); kinds.append("multi-line-string")
+        exacts[src] = render.exact(ast)
+    # a key written more than once in a tuple: three layouts / quotings of each (compared with each other below, and with the model and the loader like every text)
+    repeated = []
+    for ast in repeated_key_asts():
+        group = [render.render(ast, rng, "\n", wild=w, one_line=o)[0] for w, o in ((False, False), (True, False), (True, True), (True, False))]
+        repeated.append(group)
+        for src in group:
+            srcs.append(src); expected.append(None); kinds.append("repeated-key")
     for i in range(ctx.budget(150, 8000)):
         srcs.append(parsing.rand_tokens(rng)); expected.append(None); kinds.append("token-soup")
         srcs.append(parsing.rand_prog(rng)); expected.append(None); kinds.append("loose-program")
@@ -188,6 +446,14 @@ def run(ctx):
             elif kind == "render-plain" and last_render is not None and last_render.startswith("ok") and real.startswith("ok"):
                 if strip_lines(last_render) != strip_lines(real):
                     ctx.fail("two layouts of the same program parse to different trees", {"plain_layout": src})
+    for group in repeated:
+        reads_ = [strip_lines(parsing.real_parse(src)) for src in group]
+        ctx.count("repeated_key_layouts", len(group))
+        for src, r in zip(group[1:], reads_[1:]):
+            if r != reads_[0]:
+                ctx.fail("a tuple that writes a key more than once is read differently under another layout / quoting of the same pairs", {"source": src, "parsed": r[:600], "plain_layout": group[0], "parsed_plain": reads_[0][:600]})
+    tool_handover(ctx)
+    edited_results(ctx)
     # a caller who has turned warnings into errors reads every text the same way (F23: unknown escapes in quoted strings used to raise DeprecationWarning)
     import warnings as _warnings
     reads = {}
